@@ -1989,6 +1989,7 @@ impl<'data> RelaxationTester<'data> {
                     Some(DynamicRelocationKind::Relative) => {
                         merged_value =
                             merged_value.wrapping_add(runtime_relocation.addend() as u64);
+                        all_none = false;
                         continue;
                     }
                     Some(DynamicRelocationKind::Irelative) => {
